@@ -156,10 +156,50 @@ def _coset_tables(code):
     return _cache[key]
 
 
+def _stated_marginals(code, case):
+    """(pi, px, py, pz) per qubit written from the statement of the channel (not read from the implementation):
+    (1-p, p r_x, p r_y, p r_z) relabelled by the code's deformation dictionary"""
+    from harness.props import c07 as N
+    from fractions import Fraction
+    p = Fraction(case['p']).limit_denominator(1 << 20)
+    r = [Fraction(x).limit_denominator(1 << 20) for x in case['direction']]
+    words = N.deformation_words(code, case.get('noise_deformation'), case.get('noise_kwargs') or {})
+    ds = [N.stated_dist(p, r, None if words is None else words[i]) for i in range(code.n)]
+    return tuple(np.array([float(d[s_]) for d in ds]) for s_ in 'IXYZ')
+
+
 def check_case(case):
     kind = case['kind']
+    if kind == 'coset-optimality-siblings':
+        # decoders for sibling noise models (same direction, rate, deformation name; different deformation
+        # kwargs) are built one after the other in this process on one code object; each must be minimum
+        # weight for ITS model (reference weights from the statement, not from the implementation)
+        from panqec.error_models import PauliErrorModel
+        try:
+            code = D.make_code(case['code'], case['size'])
+            code.logicals_x, code.logicals_z  # noqa: B018
+            for kw in case['siblings']:
+                em = PauliErrorModel(*case['direction'], deformation_name=case['noise_deformation'],
+                                     deformation_kwargs=dict(kw))
+                with D.quiet():
+                    dec = D.make_decoder('MatchingDecoder', code, em, case['p'])
+                sub = dict(case, kind='coset-optimality', noise_kwargs=kw, _stated=True)
+                msg = _check_with(sub, code, em, dec)
+                if msg:
+                    return f'decoder for deformation kwargs {kw} (built after {case["siblings"][:case["siblings"].index(kw)]}): {msg}'
+        except Exception as ex:  # noqa: BLE001
+            return f'raised {type(ex).__name__}: {str(ex)[:120]}'
+        return None
     try:
         code, em, dec = _setup(case)
+        return _check_with(case, code, em, dec)
+    except Exception as ex:  # noqa: BLE001
+        return f'raised {type(ex).__name__}: {str(ex)[:120]}'
+
+
+def _check_with(case, code, em, dec):
+    kind = case['kind']
+    try:
         n = code.n
         for (xs, zs) in case['errors']:
             e = D.error_from(n, xs, zs)
@@ -168,7 +208,8 @@ def check_case(case):
                 c = np.asarray(dec.decode(s))
             if kind == 'coset-optimality':
                 # reference weights computed here from the per-qubit marginals (not through get_weights)
-                _, px, py, pz = em.probability_distribution(code, case['p'])
+                _, px, py, pz = _stated_marginals(code, case) if case.get('_stated') else \
+                    em.probability_distribution(code, case['p'])
                 wx = np.log((1 - (px + py)) / (px + py))
                 wz = np.log((1 - (pz + py)) / (pz + py))
                 allv, sxz, sxx = _coset_tables(code)
@@ -229,6 +270,16 @@ def oracle_cases(ctx, deep):
             cases.append({'kind': 'coset-optimality', 'decoder': 'MatchingDecoder', 'code': cname,
                           'size': list(size), 'direction': list(d), 'noise_deformation': nd, 'p': 0.2,
                           'errors': errs})
+    # (i') sibling noise models in one process: XZZX along each axis the class offers, biased direction
+    for cname, size in (('Toric2DCode', (2, 3)), ('Planar2DCode', (2, 3)), ('RotatedPlanar2DCode', (3, 3))):
+        code = D.make_code(cname, size)
+        em0 = D.make_noise((0.125, 0.125, 0.75))
+        errs = [D.supports(e, code.n) for e in D.random_errors(code, em0, rng, 30 if deep else 14, rates=(0.15, 0.3))]
+        errs += low_weight_errors(code.n, 1, rng, 10)
+        for sibs in ([{'deformation_axis': 'x'}, {'deformation_axis': 'y'}], [{'deformation_axis': 'y'}, {'deformation_axis': 'x'}]):
+            cases.append({'kind': 'coset-optimality-siblings', 'decoder': 'MatchingDecoder', 'code': cname,
+                          'size': list(size), 'direction': [0.125, 0.125, 0.75], 'noise_deformation': 'XZZX',
+                          'siblings': sibs, 'p': 0.2, 'errors': errs})
     # (iii) sweep-match corrects every single-qubit Pauli error on its home lattices (d >= 3)
     home = [('SweepMatchDecoder', 'Toric3DCode', [(3, 3, 3), (3, 4, 3)] + ([(3, 4, 5), (4, 4, 4)] if deep else [])),
             ('RotatedSweepMatchDecoder', 'RotatedPlanar3DCode',
